@@ -131,7 +131,9 @@ def correspond(ctx, prop):
     lines = []
     for r in runs:
         lines += S.model_lines(r["trace"])
-    out = lean_drive("Ctrl", lines)
+    # C03 replays on the extended model (controller + scheduler bookkeeping: host->component, weights, domains of the
+    # heuristics' dictionaries, control flow of assign()); the others on the base model
+    out = lean_drive("CtrlX" if prop == "C03" else "Ctrl", lines)
     k = 0
     for r, c in zip(runs, cases):
         m = len(r["trace"])
